@@ -291,8 +291,8 @@ theorem constructors_share : ∀ kc, kc ∈ Gen.C16.wrapKinds → kc.2 = true :=
 /-- **derived connections, every construction path**: whatever class the derived connection is built
 with, it refers to the implementation object of the connection it wraps; no implementation object
 (no counter) is created, nothing else changes. -/
-theorem derived_shares (w w' : World) (c c' : Nat) (cls : List Char) (auth : Option (List Char))
-    (h : w.wrap Gen.C16.cfg c cls auth = .ok (w', c')) :
+theorem derived_shares (w w' : World) (c c' : Nat) (cls : List Char) (ad : Option Adapter)
+    (h : w.wrap Gen.C16.cfg c cls ad = .ok (w', c')) :
     ∃ cn cn', w.conns[c]? = some cn ∧ w'.conns[c]? = some cn ∧ w'.conns[c']? = some cn' ∧
       cn'.impl = cn.impl ∧ w'.impls = w.impls ∧ w'.dicts = w.dicts := by
   unfold World.wrap at h
@@ -305,7 +305,7 @@ theorem derived_shares (w w' : World) (c c' : Nat) (cls : List Char) (auth : Opt
       apply Classical.byContradiction
       intro hge
       rw [List.getElem?_eq_none (by omega)] at hcn; cases hcn
-    exact ⟨cn, { impl := cn.impl, auths := auth.toList ++ cn.auths }, hcn,
+    exact ⟨cn, { impl := cn.impl, adapters := ad.toList ++ cn.adapters }, hcn,
       by simp [List.getElem?_append_left hlt, hcn], by simp, rfl, rfl, rfl⟩
   · rename_i cn _ hk
     obtain ⟨k', hk'⟩ := lookup_mem _ _ _ hk
@@ -344,21 +344,24 @@ theorem test_covers : TestCovers Gen.C16.cfg := by
   rw [header_test_ok]
   simp [HdrTest.holds, h1, h2]
 
+/-- nothing a request can reach, except `_generate_request_id`, assigns the counter, the lock or the
+connection part (no reset in an error handler: a request that fails after its id was assigned leaves
+the counter advanced, as `World.request`, which has no "undo", says) -/
+theorem no_other_writer : Gen.C16.otherWriters = [] := by decide
+
 /-- `RequestArguments` works on its own copy of the caller's headers (re-decided when the source changes) -/
 theorem hdr_init_ok : Gen.C16.hdrInit = .copy := by decide
 
 /-- **the whole of `do_request` as far as headers go**: a successful request is: read the caller's
-dict, let the authenticating adapters add `Authorization` (which neither supplies nor hides an id),
-run the id branch, add the content type (which does not change the id that is sent) — and **the
-caller's dict objects are exactly what they were** (the request never writes to a caller's object, so
-nothing is left over for the next request that is made with the same dict). -/
+dict, let the adapters of the chain process it, run the id branch on the result, add the content type
+(which does not change the id that is sent) — and **the caller's dict objects are exactly what they
+were** (the request never writes to a caller's object, so nothing is left over for the next request
+that is made with the same dict). -/
 theorem request_spec (w w' : World) (c : Nat) (cn : Conn) (im : Impl) (src : HdrSrc) (hasData : Bool)
     (hs' : Headers) (hc : w.conns[c]? = some cn) (hi : w.impls[cn.impl]? = some im)
     (h : w.request Gen.C16.cfg c src hasData = .ok (w', hs')) :
-    ∃ hs0 hs1 hs2, src.read w = some hs0 ∧ applyAuths cn.auths hs0 = some hs1 ∧
+    ∃ hs0 hs1 hs2, src.read w = some hs0 ∧ applyAdapters cn.adapters hs0 = some hs1 ∧
       w.idBranch Gen.C16.cfg cn.impl im hs1 = .ok (w', hs2) ∧
-      hs1.any (fun kv => Gen.C16.hdrTest.holds kv.1) = hs0.any (fun kv => Gen.C16.hdrTest.holds kv.1) ∧
-      sentId Gen.C16.hdrName hs1 = sentId Gen.C16.hdrName hs0 ∧
       sentId Gen.C16.hdrName hs' = sentId Gen.C16.hdrName hs2 ∧
       w'.dicts = w.dicts := by
   unfold World.request at h
@@ -380,8 +383,6 @@ theorem request_spec (w w' : World) (c : Nat) (cn : Conn) (im : Impl) (src : Hdr
     rw [this]
   rw [hwb] at hw
   subst hw hh
-  have hk := applyAuths_keeps (fun n => Gen.C16.hdrTest.holds n) Gen.C16.hdrName (by decide) (by decide)
-    cn.auths hs0 hs1 hauth
   have hd : w1.dicts = w.dicts := by
     unfold World.idBranch at hid
     split at hid
@@ -391,45 +392,73 @@ theorem request_spec (w w' : World) (c : Nat) (cn : Conn) (im : Impl) (src : Hdr
       · split at hid
         · cases hid
         · cases hid; rfl
-  exact ⟨hs0, hs1, hs2, hread, hauth, hid, hk.1, hk.2,
+  exact ⟨hs0, hs1, hs2, hread, hauth, hid,
     addContentType_sent Gen.C16.hdrName (by decide) hasData hs2, hd⟩
 
-/-- **sequential request, end to end, caller brought an id** (any capitalisation, in a dict built for
-the call or in a dict the caller keeps): no counter moves, no caller object changes, and the value sent
-is the caller's. -/
-theorem request_caller_id (w w' : World) (c : Nat) (cn : Conn) (im : Impl) (src : HdrSrc) (hasData : Bool)
-    (hs0 hs' : Headers) (name v : List Char)
+/-- a chain of authenticating adapters neither supplies nor hides an id -/
+theorem auth_chain_keeps (auths : List (List Char)) (hs0 hs1 : Headers)
+    (h : applyAdapters (auths.map Adapter.auth) hs0 = some hs1) :
+    hs1.any (fun kv => Gen.C16.hdrTest.holds kv.1) = hs0.any (fun kv => Gen.C16.hdrTest.holds kv.1) ∧
+    sentId Gen.C16.hdrName hs1 = sentId Gen.C16.hdrName hs0 := by
+  rw [applyAdapters_auth] at h
+  exact applyAuths_keeps (fun n => Gen.C16.hdrTest.holds n) Gen.C16.hdrName (by decide) (by decide)
+    auths hs0 hs1 h
+
+/-- **an id is present when the adapters are done** (the caller's own header or one an adapter of the
+caller's put there — the test runs after the adapters): no counter moves and that id is what is sent. -/
+theorem request_supplied_id (w w' : World) (c : Nat) (cn : Conn) (im : Impl) (src : HdrSrc) (hasData : Bool)
+    (hs0 hs1 hs' : Headers)
     (hc : w.conns[c]? = some cn) (hi : w.impls[cn.impl]? = some im) (hread : src.read w = some hs0)
+    (had : applyAdapters cn.adapters hs0 = some hs1)
+    (hany : hs1.any (fun kv => Gen.C16.hdrTest.holds kv.1) = true)
+    (h : w.request Gen.C16.cfg c src hasData = .ok (w', hs')) :
+    w' = w ∧ sentId Gen.C16.hdrName hs' = sentId Gen.C16.hdrName hs1 := by
+  obtain ⟨a0, a1, a2, r0, r1, rid, rs2, _⟩ := request_spec w w' c cn im src hasData hs' hc hi h
+  rw [hread] at r0; cases r0
+  rw [had] at r1; cases r1
+  unfold World.idBranch at rid
+  have hany1 : hs1.any (fun kv => Gen.C16.cfg.test.holds kv.1) = true := hany
+  cases hctr : im.ctr with
+  | none => simp [hctr] at rid; obtain ⟨e1, e2⟩ := rid; subst e1 e2; exact ⟨rfl, rs2⟩
+  | some n => simp [hctr, hany1] at rid; obtain ⟨e1, e2⟩ := rid; subst e1 e2; exact ⟨rfl, rs2⟩
+
+/-- **sequential request, end to end, caller brought an id** (any capitalisation, in a dict built for
+the call or in a dict the caller keeps; connection with authenticating adapters only): no counter
+moves, no caller object changes, and the value sent is the caller's. -/
+theorem request_caller_id (w w' : World) (c : Nat) (cn : Conn) (im : Impl) (src : HdrSrc) (hasData : Bool)
+    (hs0 hs' : Headers) (name v : List Char) (auths : List (List Char))
+    (hc : w.conns[c]? = some cn) (hch : cn.adapters = auths.map Adapter.auth)
+    (hi : w.impls[cn.impl]? = some im) (hread : src.read w = some hs0)
     (hmem : (name, v) ∈ hs0) (hname : name.map lowerAscii = "x-request-id".toList)
     (h : w.request Gen.C16.cfg c src hasData = .ok (w', hs')) :
     w' = w ∧ sentId Gen.C16.hdrName hs' = sentId Gen.C16.hdrName hs0 := by
-  obtain ⟨a0, a1, a2, r0, _, rid, rany, rs1, rs2, _⟩ := request_spec w w' c cn im src hasData hs' hc hi h
+  obtain ⟨a0, a1, a2, r0, r1, _, _, _⟩ := request_spec w w' c cn im src hasData hs' hc hi h
   rw [hread] at r0; cases r0
+  have hk := auth_chain_keeps auths hs0 a1 (by rw [← hch]; exact r1)
   have hany0 : hs0.any (fun kv => Gen.C16.hdrTest.holds kv.1) = true := by
     apply List.any_eq_true.mpr
     refine ⟨(name, v), hmem, ?_⟩
     show Gen.C16.hdrTest.holds name = true
     rw [header_test_ok]; simp [HdrTest.holds, hname]
-  rw [← rany] at hany0
-  unfold World.idBranch at rid
-  have hany1 : a1.any (fun kv => Gen.C16.cfg.test.holds kv.1) = true := hany0
-  cases hctr : im.ctr with
-  | none => simp [hctr] at rid; obtain ⟨e1, e2⟩ := rid; subst e1 e2; exact ⟨rfl, by rw [rs2, rs1]⟩
-  | some n => simp [hctr, hany1] at rid; obtain ⟨e1, e2⟩ := rid; subst e1 e2; exact ⟨rfl, by rw [rs2, rs1]⟩
+  rw [← hk.1] at hany0
+  obtain ⟨e1, e2⟩ := request_supplied_id w w' c cn im src hasData hs0 a1 hs' hc hi hread r1 hany0 h
+  exact ⟨e1, by rw [e2, hk.2]⟩
 
-/-- **sequential request, end to end, no id from the caller**, ids enabled: the family's counter goes
-from `n` to `n + 1`, what is sent under the id header is the rendering of `n`, every caller dict is
-what it was. -/
+/-- **sequential request, end to end, no id from the caller**, ids enabled, connection with
+authenticating adapters only: the family's counter goes from `n` to `n + 1`, what is sent under the id
+header is the rendering of `n`, every caller dict is what it was. -/
 theorem request_auto_sent (w w' : World) (c n : Nat) (cn : Conn) (im : Impl) (src : HdrSrc) (hasData : Bool)
-    (hs0 hs' : Headers)
-    (hc : w.conns[c]? = some cn) (hi : w.impls[cn.impl]? = some im) (hread : src.read w = some hs0)
+    (hs0 hs' : Headers) (auths : List (List Char))
+    (hc : w.conns[c]? = some cn) (hch : cn.adapters = auths.map Adapter.auth)
+    (hi : w.impls[cn.impl]? = some im) (hread : src.read w = some hs0)
     (hn : im.ctr = some n) (hno : hs0.any (fun kv => Gen.C16.hdrTest.holds kv.1) = false)
     (h : w.request Gen.C16.cfg c src hasData = .ok (w', hs')) :
     w' = { w with impls := setImpl w.impls cn.impl { im with ctr := some (n + 1) } } ∧
     sentId Gen.C16.hdrName hs' = some (render im.cp Gen.C16.idFormat n) := by
-  obtain ⟨a0, a1, a2, r0, _, rid, rany, _, rs2, _⟩ := request_spec w w' c cn im src hasData hs' hc hi h
+  obtain ⟨a0, a1, a2, r0, r1, rid, rs2, _⟩ := request_spec w w' c cn im src hasData hs' hc hi h
   rw [hread] at r0; cases r0
-  rw [← rany] at hno
+  have hk := auth_chain_keeps auths hs0 a1 (by rw [← hch]; exact r1)
+  rw [← hk.1] at hno
   rw [request_auto w cn.impl n im a1 hn hno] at rid
   simp only [Except.ok.injEq, Prod.mk.injEq] at rid
   obtain ⟨e1, e2⟩ := rid
@@ -442,14 +471,15 @@ theorem request_auto_sent (w w' : World) (c n : Nat) (cn : Conn) (im : Impl) (sr
   exact hall this
 
 /-- **the property on what is sent, for every schedule**: concurrent requests of any number of
-threads through connections of one family, any run-length encoded schedule.  The ids sent under the
+threads through connections of one family (`threads`: the header dicts as the adapters left them),
+any run-length encoded schedule.  The ids sent under the
 id header by the requests that brought none (`ids`, thread by thread) are pairwise distinct, each is
 the rendering of a number of `[n, n + #ids)`, the family's counter advances by exactly `#ids`
 (requests with their own id take nothing) and those requests keep their headers untouched. -/
 theorem par_world (w w' : World) (i n : Nat) (im : Impl) (threads : List (List ParReq))
     (sched : List (Nat × Nat)) (out : List (List Headers))
     (hi : w.impls[i]? = some im) (hn : im.ctr = some n)
-    (h : w.par Gen.C16.cfg i threads sched = .ok (w', out)) :
+    (h : w.parCore Gen.C16.cfg i threads sched = .ok (w', out)) :
     let ids := (threads.zip out).flatMap (fun to => sentAuto Gen.C16.cfg to.1 to.2)
     ids.Nodup ∧
     (∀ x, x ∈ ids → ∃ v, n ≤ v ∧ v < n + ids.length ∧ x = some (render im.cp Gen.C16.idFormat v)) ∧
@@ -457,7 +487,7 @@ theorem par_world (w w' : World) (i n : Nat) (im : Impl) (threads : List (List P
     w'.dicts = w.dicts ∧
     out.length = threads.length ∧
     (∀ to, to ∈ threads.zip out → keptOwn Gen.C16.cfg to.1 to.2) := by
-  unfold World.par at h
+  unfold World.parCore at h
   simp only [hi, hn] at h
   split at h
   · cases h
@@ -526,7 +556,7 @@ example : HdrTest.holds Gen.C16.hdrTest "X-REQUEST-id".toList = true := by decid
 caller keeps; two requests with that dict through the two connections, then one with the caller's id -/
 def demoWorld : Except Err (World × List (Option (List Char))) :=
   let (w0, _) := World.empty.newImpl "ab12".toList true
-  match w0.wrap Gen.C16.cfg 0 "TokenAuthConn".toList (some "Bearer tok".toList) with
+  match w0.wrap Gen.C16.cfg 0 "TokenAuthConn".toList (some (.auth "Bearer tok".toList)) with
   | .error e => .error e
   | .ok (w1, _) =>
     let (w2, _) := w1.newDict [("Accept".toList, "*/*".toList)]
